@@ -492,7 +492,7 @@ def c06_designed():
 
 
 def C06(tier, seed):
-    st = mean_stage("c06", "C06", arith_req("C06") + ["C04.unpaired_small_dof_large_population", "C06.even_dof_closed_form", "C06.extreme_level.upper"], 0)
+    st = mean_stage("c06", "C06", arith_req("C06") + ["C04.unpaired_small_dof_large_population", "C06.even_dof_closed_form", "C06.extreme_level.upper", "C06.off_grid_level.two", "C06.off_grid_level.lower"], 0)
     st.adopt = {"C04.unpaired_bound", "C04.shape", "C04.domain", "C04.exchange_mirrors"}    # the critical value of the unpaired comparison at a small effective dof
     # even-dof rows of the t table certified from the algebraic closed form of the distribution function
     st.mc = list(TABLES_MC) + [("MC_TCert", "MC_TCert.cfg", {"TCERT_MAX": 80 if tier == "quick" else 300}, 4)]
